@@ -31,7 +31,7 @@ HOSTS = [("h.com", "h.com", "h.com"), ("127.0.0.1", "127.0.0.1", "127.0.0.1"), (
          ("xn--9ca.com", "é.com", "xn--9ca.com"), ("[fe80::1%eth0]", "fe80::1%eth0", "[fe80::1%eth0]"), ("h.com.", "h.com.", "h.com.")]
 USERINFO = [("", None, None), ("u@", "u", None), ("u:p@", "u", "p"), (":p@", None, "p"), ("u:@", "u", "")]
 ROUTES = ["ctor", "ctor_encoded", "ctor_encoded_zeros", "build_hp", "build_auth", "with_port", "with_port_replace", "rescheme_observed",
-          "origin", "with_host_keeps_port", "with_user_keeps_port", "lazy_twin"]
+          "origin", "with_host_keeps_port", "with_user_keeps_port", "lazy_twin", "with_port_on_empty_port"]
 
 
 def make(route, scheme, ui, host, port):
@@ -63,6 +63,9 @@ def make(route, scheme, ui, host, port):
         return U(pre + uitext + "old.example" + ("" if port is None else ":%d" % port) + "/p?q#f").with_host(bare)
     if route == "with_user_keeps_port":
         return U(pre + written + ("" if port is None else ":%d" % port) + "/p?q#f").with_user(user).with_password(pw)
+    if route == "with_port_on_empty_port":
+        # RFC 3986: port = *DIGIT, so 'host:' is a legal authority without a port; a pre-encoded URL keeps it as written
+        return U(pre + uitext + written + ":/p?q#f", encoded=True).with_port(port)
     if route == "lazy_twin":
         return pickle.loads(pickle.dumps(U(pre + uitext + written + ("" if port is None else ":%d" % port) + "/p?q#f")))
     if route == "rescheme_observed":
